@@ -261,7 +261,8 @@ class CombineLatestRemoveUpstream(IndexedInputs, TopoBase):
         selfv = st.new_obj('combine_latest', f)
         U, who, idx = self._io
         up = VRef(who, 'Stream')
-        self.finish(I, {'self': selfv, 'upstream': up})
+        other = VRef(z3.Const('other_input', sym.Obj), 'Stream')
+        self.finish(I, {'self': selfv, 'upstream': up, 'other': other})
         return selfv, [up], {}
 
     def summaries(self):
@@ -272,7 +273,10 @@ class CombineLatestRemoveUpstream(IndexedInputs, TopoBase):
         return d
 
     def clauses(self):
-        return [Clause('C15.T3_slot_of_the_removed_input_dropped', ['C15'], when='return',
+        return [Clause('C15.T3_other_inputs_keep_their_delivered_status', ['C15'], when='return',
+                       text='implies(other is not upstream, (other in self.missing) == old(other in self.missing))',
+                       note='`other` is an arbitrary node: removing one input does not change what the node knows about the others'),
+                Clause('C15.T3_slot_of_the_removed_input_dropped', ['C15'], when='return',
                        text='list(self.last) == Lp + Ls and list(self.metadata) == Mp + Ms and len(self.upstreams) == len(self.last)',
                        note='the node behaves like one built over its current inputs'),
                 Clause('C15.T3_removed_input_no_longer_missing', ['C15'], when='return',
@@ -297,11 +301,15 @@ class CombineLatestAddUpstream(IndexedInputs, TopoBase):
         new = VRef(z3.Const('new_up', sym.Obj), 'Stream')
         U, who, idx = self._io
         st.assume(z3.Not(z3.Contains(U, z3.Unit(new.t))))
-        self.finish(I, {'self': selfv, 'upstream': new})
+        self.finish(I, {'self': selfv, 'upstream': new, 'who': VRef(who, 'Stream')})
         return selfv, [new], {}
 
     def clauses(self):
-        return [Clause('C15.T3_new_input_gets_an_empty_slot_and_is_missing', ['C15'], when='return',
+        return [Clause('C15.T3_inputs_that_have_delivered_stay_delivered', ['C15'], when='return',
+                       text='(who in self.missing) == old(who in self.missing) and '
+                            'list(self.last)[:-1] == old(list(self.last)) and list(self.metadata)[:-1] == old(list(self.metadata))',
+                       note='`who` is an arbitrary existing input: the node keeps what its inputs delivered so far'),
+                Clause('C15.T3_new_input_gets_an_empty_slot_and_is_missing', ['C15'], when='return',
                        text='len(self.last) == len(self.upstreams) and len(self.metadata) == len(self.upstreams) and '
                             'upstream in self.missing and self.upstreams[-1] is upstream and len(self.upstreams) == old(len(self.upstreams)) + 1',
                        note='like a node built over the current inputs in which the new input has not delivered yet'),
@@ -336,7 +344,10 @@ class ZipRemoveUpstream(TopoBase):
         st.ghost['_split_hints'] = [(U, up, Up, Us)]
         selfv = st.new_obj('zip', {'upstreams': st.new_list(U, K_STREAM), 'buffers': bufs})
         upv = VRef(up, 'Stream')
-        self.finish(I, {'self': selfv, 'upstream': upv})
+        other = z3.Const('other_input', sym.Obj)
+        st.assume(z3.Contains(U, z3.Unit(other)))
+        st.assume(other != up)
+        self.finish(I, {'self': selfv, 'upstream': upv, 'other': VRef(other, 'Stream')})
         return selfv, [upv], {}
 
     def summaries(self):
@@ -349,6 +360,11 @@ class ZipRemoveUpstream(TopoBase):
             c = I.st.heap[dv.loc]
             return VSeq(c.keys, c.kkind)
 
+        def buffer_of(I, dv, k):
+            c = I.st.heap[dv.loc]
+            return VSeq(I.st.dict_list_term(dv.loc, k.t) if hasattr(I.st, 'dict_list_term') else z3.Select(c.vals, k.t), K_ELEM)
+        d['buffer_of'] = buffer_of
+
         def some_remaining_buffer_empty(I):
             selfv = self.pre_args['self']
             dcell = I.st.heap[I.st.heap[selfv.loc].fields['buffers'].loc]
@@ -360,6 +376,9 @@ class ZipRemoveUpstream(TopoBase):
     def clauses(self):
         return [Clause('C15.T2_buffers_follow_upstreams', ['C15'], when='return',
                        text='keys(self.buffers) == Up + Us and list(self.upstreams) == Up + Us'),
+                Clause('C15.T2_buffers_of_the_other_inputs_untouched', ['C15'], when='return',
+                       text='buffer_of(self.buffers, other) == old(buffer_of(self.buffers, other))',
+                       note='`other` is an arbitrary remaining input: what it delivered so far stays buffered'),
                 Clause('C15.T2_node_is_in_a_state_a_fresh_zip_could_be_in', ['C15'], when='return',
                        text='len(self.upstreams) == 0 or some_remaining_buffer_empty()',
                        kind='protocol', replay={'scenario': 'zip_remove_upstream_stuck'},
